@@ -762,7 +762,8 @@ func checkArrayTempCopies(r *Reporter, p *Prog) {
 		r.Fail("tempcopy/array-of-objects", pkgSerix+".decodeArrayViaSlice", "-", fmt.Sprintf("arrays of non-byte elements must be decoded through an addressable slice that is copied back (helper present: %v, call sites: %d, want 3)", fd != nil, nVia))
 	} else {
 		s, _ := srcOf(p, pkgSerix, "", "decodeArrayViaSlice")
-		if hasAll(s, ":=reflect.New(sliceValueType).Elem()", "fillArrayFromSlice(arrValue,sliceValue)") && strings.Contains(exprKeyOfFirstIf(fd, 1), "sliceValue.Len()!=arrValue.Len()") {
+		_ = s
+		if decodesViaFreshSlice(p, p.Pkg(pkgSerix).TypesInfo, fd) {
 			r.Pass("tempcopy/array-of-objects", pkgSerix+".decodeArrayViaSlice", p.posStr(fd.Pos()), fmt.Sprintf("%d call sites; decodes into a fresh addressable slice, checks the length, copies back", nVia))
 		} else {
 			r.Fail("tempcopy/array-of-objects", pkgSerix+".decodeArrayViaSlice", p.posStr(fd.Pos()), "the helper must decode into reflect.New(sliceType).Elem(), reject a length mismatch and copy back: "+s)
@@ -2283,7 +2284,7 @@ func runC03(c *Ctx) {
 	checkNumWidths(r, p, "table/number-width")
 	infoS := p.Pkg(pkgSer).TypesInfo
 	if s, fd := srcOf(p, pkgSer, "Serializer", "writePayloadLength"); fd != nil {
-		if strings.Contains(s, "binary.Write(&s.buf,binary.LittleEndian,uint32(length))") {
+		if writesFixedLE(infoS, fd, "uint32") {
 			r.Pass("table/payload-marker", pkgSer+".Serializer.writePayloadLength", p.posStr(fd.Pos()), "uint32 little-endian marker")
 		} else {
 			r.Fail("table/payload-marker", pkgSer+".Serializer.writePayloadLength", p.posStr(fd.Pos()), "payload/optional length marker must be written as a little-endian uint32: "+s)
@@ -2292,7 +2293,7 @@ func runC03(c *Ctx) {
 		r.Unresolved("table/payload-marker", pkgSer+".Serializer.writePayloadLength", "function not found")
 	}
 	if s, fd := srcOf(p, pkgSer, "Deserializer", "ReadPayloadLength"); fd != nil {
-		if strings.Contains(s, "binary.LittleEndian.Uint32(") && strings.Contains(s, "PayloadLengthByteSize") {
+		if readsFixedLE(infoS, fd, "Uint32") && strings.Contains(s, "PayloadLengthByteSize") {
 			r.Pass("table/payload-marker", pkgSer+".Deserializer.ReadPayloadLength", p.posStr(fd.Pos()), "uint32 little-endian marker")
 		} else {
 			r.Fail("table/payload-marker", pkgSer+".Deserializer.ReadPayloadLength", p.posStr(fd.Pos()), "payload/optional length marker must be read as a little-endian uint32: "+s)
@@ -2363,7 +2364,8 @@ func runC03(c *Ctx) {
 		}
 	}
 	if s, fd := srcOf(p, pkgSer, "Serializer", "WriteBool"); fd != nil {
-		if strings.Contains(s, "val=1") && strings.Contains(s, "s.buf.WriteByte(val)") && !strings.Contains(s, "val=2") {
+		_ = s
+		if writesOnlyZeroOrOne(p, infoS, fd) {
 			r.Pass("bool/strict", pkgSer+".Serializer.WriteBool", p.posStr(fd.Pos()), "writes 0 or 1")
 		} else {
 			r.Fail("bool/strict", pkgSer+".Serializer.WriteBool", p.posStr(fd.Pos()), "WriteBool must write exactly 0 or 1: "+s)
@@ -3522,4 +3524,214 @@ func checkArrayExactCount(r *Reporter, p *Prog) {
 	if ok {
 		r.Pass(rule, key, f.PosOf(fills[0]), "the array is filled only when the decoded count equals its length")
 	}
+}
+
+// writesFixedLE: the function writes its value as a fixed-width little-endian integer of the given
+// type - binary.Write(w, binary.LittleEndian, <value of that type>), or the byte order's Put/Append
+// method of that width - and uses no other byte order.
+func writesFixedLE(info *types.Info, fd *ast.FuncDecl, typ string) bool {
+	ok, other := false, false
+	isLE := func(e ast.Expr) bool {
+		se, isSel := ast.Unparen(e).(*ast.SelectorExpr)
+		return isSel && se.Sel.Name == "LittleEndian"
+	}
+	ast.Inspect(fd.Body, func(n ast.Node) bool {
+		c, isCall := n.(*ast.CallExpr)
+		if !isCall {
+			return true
+		}
+		if qualifiedCallee(info, c) == "encoding/binary.Write" && len(c.Args) == 3 {
+			if t := info.TypeOf(c.Args[2]); isLE(c.Args[1]) && t != nil && t.String() == typ {
+				ok = true
+			} else {
+				other = true
+			}
+		}
+		if se, isSel := ast.Unparen(c.Fun).(*ast.SelectorExpr); isSel {
+			if fn, isFn := info.Uses[se.Sel].(*types.Func); isFn && fn.Pkg() != nil && fn.Pkg().Path() == "encoding/binary" {
+				w := strings.ToLower(strings.TrimPrefix(strings.TrimPrefix(fn.Name(), "Put"), "Append"))
+				if (strings.HasPrefix(fn.Name(), "Put") || strings.HasPrefix(fn.Name(), "Append")) && w == typ && isLE(se.X) {
+					ok = true
+				} else if strings.HasPrefix(fn.Name(), "Put") || strings.HasPrefix(fn.Name(), "Append") {
+					other = true
+				}
+			}
+		}
+		return true
+	})
+	return ok && !other
+}
+
+// readsFixedLE: the function decodes with binary.LittleEndian.<method> and with no other byte order.
+func readsFixedLE(info *types.Info, fd *ast.FuncDecl, method string) bool {
+	ok, other := false, false
+	ast.Inspect(fd.Body, func(n ast.Node) bool {
+		c, isCall := n.(*ast.CallExpr)
+		if !isCall {
+			return true
+		}
+		if se, isSel := ast.Unparen(c.Fun).(*ast.SelectorExpr); isSel {
+			if fn, isFn := info.Uses[se.Sel].(*types.Func); isFn && fn.Pkg() != nil && fn.Pkg().Path() == "encoding/binary" && strings.HasPrefix(fn.Name(), "Uint") {
+				if inner, isInner := ast.Unparen(se.X).(*ast.SelectorExpr); isInner && inner.Sel.Name == "LittleEndian" && fn.Name() == method {
+					ok = true
+				} else {
+					other = true
+				}
+			}
+		}
+		return true
+	})
+	return ok && !other
+}
+
+// writesOnlyZeroOrOne: every byte the function hands to the buffer's WriteByte is, on every path, the
+// constant 0 (also as the zero value of an unassigned variable) or 1, and 1 occurs.
+func writesOnlyZeroOrOne(p *Prog, info *types.Info, fd *ast.FuncDecl) bool {
+	f := newFuncCFG(p, info, fd.Body, "WriteBool")
+	n, sawOne, good := 0, false, true
+	for _, c := range f.Calls(func(c *ast.CallExpr) bool {
+		se, ok := ast.Unparen(c.Fun).(*ast.SelectorExpr)
+		return ok && se.Sel.Name == "WriteByte" && len(c.Args) == 1 && fieldSel(info, se.X, "buf")
+	}) {
+		n++
+		pt, _ := f.PointOf(c)
+		var visit func(e ast.Expr, at Point, depth int)
+		visit = func(e ast.Expr, at Point, depth int) {
+			if tv, ok := info.Types[e]; ok && tv.Value != nil {
+				switch tv.Value.String() {
+				case "0":
+				case "1":
+					sawOne = true
+				default:
+					good = false
+				}
+				return
+			}
+			obj := objOfIdent(info, e)
+			if obj == nil || depth > 4 {
+				good = false
+				return
+			}
+			defs, fromEntry := f.ReachingDefs(at, obj)
+			if fromEntry {
+				// declared without a value in this function: the zero value; a parameter is unknown
+				if obj.Pos() < fd.Body.Pos() || obj.Pos() > fd.Body.End() {
+					good = false
+				}
+			}
+			for _, d := range defs {
+				if d.Rhs == nil {
+					good = false
+					continue
+				}
+				visit(d.Rhs, d.At, depth+1)
+			}
+		}
+		visit(c.Args[0], pt, 0)
+	}
+	return n > 0 && good && sawOne
+}
+
+// decodesViaFreshSlice: the helper decodes into a fresh addressable slice value
+// (reflect.New(<slice type>).Elem()), returns an error when the decoded length differs from the
+// array's, and only then copies the elements into the array (a call that receives the array value
+// and the slice value) - whatever the locals are called.
+func decodesViaFreshSlice(p *Prog, info *types.Info, fd *ast.FuncDecl) bool {
+	params := paramObjs(info, fd)
+	if len(params) == 0 || params[0] == nil {
+		return false
+	}
+	arr := params[0]
+	f := newFuncCFG(p, info, fd.Body, "decodeArrayViaSlice")
+	// the fresh slice variable
+	var slice types.Object
+	ast.Inspect(fd.Body, func(n ast.Node) bool {
+		as, ok := n.(*ast.AssignStmt)
+		if !ok || len(as.Lhs) != 1 || len(as.Rhs) != 1 {
+			return true
+		}
+		c, ok := ast.Unparen(as.Rhs[0]).(*ast.CallExpr)
+		if !ok || len(c.Args) != 0 {
+			return true
+		}
+		se, ok := ast.Unparen(c.Fun).(*ast.SelectorExpr)
+		if !ok || se.Sel.Name != "Elem" {
+			return true
+		}
+		if nc, ok := ast.Unparen(se.X).(*ast.CallExpr); ok && qualifiedCallee(info, nc) == "reflect.New" {
+			slice = objOfIdent(info, as.Lhs[0])
+		}
+		return true
+	})
+	if slice == nil {
+		return false
+	}
+	isLenOf := func(e ast.Expr, o types.Object) bool {
+		c, ok := ast.Unparen(e).(*ast.CallExpr)
+		if !ok || len(c.Args) != 0 {
+			return false
+		}
+		se, ok := ast.Unparen(c.Fun).(*ast.SelectorExpr)
+		return ok && se.Sel.Name == "Len" && objOfIdent(info, se.X) == o
+	}
+	// edges on which the two lengths are known to differ / to be equal
+	var differ, equal []Edge
+	f.forEachEdgeFact(func(e Edge, _ *cfg.Block, ft fact) {
+		be, ok := ast.Unparen(ft.Atom).(*ast.BinaryExpr)
+		if !ok || (be.Op != token.NEQ && be.Op != token.EQL) {
+			return
+		}
+		if !((isLenOf(be.X, slice) && isLenOf(be.Y, arr)) || (isLenOf(be.X, arr) && isLenOf(be.Y, slice))) {
+			return
+		}
+		if (be.Op == token.NEQ) == ft.Pol {
+			differ = append(differ, e)
+		} else {
+			equal = append(equal, e)
+		}
+	})
+	if len(differ) == 0 || len(equal) == 0 {
+		return false
+	}
+	// the copy back: a call that receives both values, only where the lengths are known equal
+	copies := f.Find(func(n ast.Node) bool {
+		c, ok := n.(*ast.CallExpr)
+		if !ok {
+			return false
+		}
+		hasArr, hasSlice := false, false
+		for _, a := range c.Args {
+			if objOfIdent(info, a) == arr {
+				hasArr = true
+			}
+			if objOfIdent(info, a) == slice {
+				hasSlice = true
+			}
+		}
+		if se, isSel := ast.Unparen(c.Fun).(*ast.SelectorExpr); isSel && objOfIdent(info, se.X) == arr {
+			hasArr = true // arr.Set(slice) style
+		}
+		return hasArr && hasSlice
+	})
+	if len(copies) == 0 {
+		return false
+	}
+	for _, cp := range copies {
+		if _, only := f.OnlyThroughEdges(cp, equal); !only {
+			return false
+		}
+	}
+	// a length mismatch never returns nil
+	for _, e := range differ {
+		if _, found := f.reach(Point{e.From.Succs[e.Succ], 0}, nil, func(pt Point, atExit bool) bool {
+			if atExit {
+				return false
+			}
+			rs, ok := f.nodeAt(pt).(*ast.ReturnStmt)
+			return ok && len(rs.Results) == 1 && isNil(info, rs.Results[0])
+		}); found {
+			return false
+		}
+	}
+	return true
 }
